@@ -70,3 +70,20 @@ package domutil
 //@   pure
 //@   reads html.Node.Parent
 //@   ensures result == (node != nil && child != nil && isAnc(node, child))
+
+// C05: after StripAttributes every element of the subtree (the elements GetElementsByTagName listed at entry, and
+// the root) carries only allow-listed keys, none of them id/class/style or another presentational attribute.
+//@ func StripAttributes(node)
+//@   requires node != nil
+//@   assigns html.Node.Attr
+//@   fresh_assigns elems(attr), elems(ref), html.Attribute.*
+//@   ensures [C05] #root-inert attrsInert(node)
+//@   ensures [C05] #no-event-handlers forall(j, 0 <= j && j < len(node.Attr), !hasPrefix(node.Attr[j].Key, "on")) &&
+//@              forall(x[*html.Node], i, j, implies(0 <= i && i < old(ebtLen(node, "*")) && x == old(ebtAt(node, "*", i)) && 0 <= j && j < len(x.Attr), !hasPrefix(x.Attr[j].Key, "on")))
+//@   ensures [C05] #descendants-inert forall(x[*html.Node], i, implies(0 <= i && i < old(ebtLen(node, "*")) && x == old(ebtAt(node, "*", i)), attrsInert(x)))
+//@   loop 0 invariant node != nil && freshslice(elements) && len(elements) == old(ebtLen(node, "*")) + 1 && elements[len(elements)-1] == node
+//@   loop 0 invariant forall(k, 0 <= k && k < old(ebtLen(node, "*")), elements[k] == old(ebtAt(node, "*", k)))
+//@   loop 0 invariant forall(k, 0 <= k && k < len(elements), elements[k] != nil)
+//@   loop 0 invariant forall(k, 0 <= k && k < ITER, attrsInert(elements[k]))
+//@   loop 1 invariant freshslice(finalAttrs) && forall(j, 0 <= j && j < len(finalAttrs), inertKey(finalAttrs[j].Key))
+//@   loop 1 invariant elem != nil && forall(k, 0 <= k && k < ITER_OUTER, attrsInert(elements[k]))
